@@ -288,6 +288,12 @@ def finish(cov, results, tier):
 
 def replay(v):
     sh = v['shard']
+    if (v.get('detail') or {}).get('sigkey') == 'history_dependent':
+        def stp(pr, x):
+            for w, val in zip(pr.free, x):
+                w.put(val)
+            pr.sim.clk(1)
+        return core.replay_history_dependence(lambda: Pair(sh['source'], sh['cfg'], sh['place']), lambda pr: (pr.sys, pr.free), stp, v['trace'])
     pr = Pair(sh['source'], sh['cfg'], sh['place'])
     steps = []
     a, b = [w.get() for w in pr.out_wires], [pr.v.peek(n) for n in pr.out_names]
